@@ -49,7 +49,7 @@ def cmp_tokens(a, b, tol):
     if worst: return "token %d: %s vs %s (|diff| %.3g, scale %.3g, tol %.1g)" % (worst[1], worst[2], worst[3], worst[0], scale, tol)
     return None
 
-def compare(impl_path, model_path, tol=1e-9, tol_solve=1e-7, skip_labels=(), cond_max=1e6, same=(), unchanged_on_reject=False):
+def compare(impl_path, model_path, tol=1e-9, tol_solve=1e-7, skip_labels=(), cond_max=1e6, same=(), unchanged_on_reject=False, twin_tol=None):
     impl, order = parse(impl_path); model, _ = parse(model_path)
     rep = {"cases": len(order), "corr_lines": 0, "oracle_lines": 0, "corr_mismatch": [], "oracle_mismatch": [], "crashed": [], "incomplete": [],
            "discarded_ill_conditioned": 0, "max_cond": 0.0, "residual_lines": 0, "same_checked": 0}
@@ -113,12 +113,17 @@ def compare(impl_path, model_path, tol=1e-9, tol_solve=1e-7, skip_labels=(), con
                             if lab in ("ids", "jframes", "names"): continue   # these also list the rejected op itself
                             if before[lab] != after.get(lab):
                                 rep["oracle_mismatch"].append({"case": c, "seq": k, "label": "reject_changed_model", "why": "field '%s' differs after a rejected addition" % lab}); break
-        for (cs, a, b, lab) in same:
+        for sm in same:
+            (cs, a, b, lab) = sm[:4]; perm = sm[4] if len(sm) > 4 else None
             if cs != c: continue
             ka = ("o", str(a), lab); kb = ("o", str(b), lab)
             if ka in I and kb in I:
                 rep["same_checked"] += 1
-                d = cmp_tokens(I[ka], I[kb], tol_solve if lab in SOLVE_LABELS else tol)
+                tb = I[kb]
+                if perm is not None and len(tb) == len(perm): tb = [tb[perm[i]] for i in range(len(perm))]
+                tl = tol_solve if lab in SOLVE_LABELS else tol
+                if twin_tol is not None: tl = max(tl, twin_tol)
+                d = cmp_tokens(I[ka], tb, tl)
                 if d: rep["oracle_mismatch"].append({"case": c, "seq": int(b), "label": "same:" + lab, "why": "results of call %d and call %d differ: %s" % (a, b, d)})
         for key in M:
             if key != "_done" and key[0] == "o" and key not in I and key[2].split("#")[0] not in skip_labels:
